@@ -162,7 +162,10 @@ func (g *Gen) Next(t *tape.Tape, parent *Block, o Opts) *Block {
 	if ts < o.MinTime {
 		ts = o.MinTime
 	}
-	post := pre.Clone()
+	post := pre
+	if !o.Empty {
+		post = pre.Clone()
+	}
 	diff := &core.StateDiff{
 		StorageDiffs:      map[felt.Felt]map[felt.Felt]*felt.Felt{},
 		Nonces:            map[felt.Felt]*felt.Felt{},
@@ -179,7 +182,9 @@ func (g *Gen) Next(t *tape.Tape, parent *Block, o Opts) *Block {
 	if !o.Empty {
 		g.genDiff(t, pre, diff, classes, o, num, isV2)
 	}
-	post.Apply(num, o.Version, diff, classes)
+	if !o.Empty {
+		post.Apply(num, o.Version, diff, classes)
+	}
 
 	var txs []core.Transaction
 	var rcpts []*core.TransactionReceipt
@@ -192,7 +197,12 @@ func (g *Gen) Next(t *tape.Tape, parent *Block, o Opts) *Block {
 	for _, r := range rcpts {
 		evCount += uint64(len(r.Events))
 	}
-	root := post.Commitment(o.Version)
+	var root felt.Felt
+	if o.Empty && parent != nil && parent.Version == o.Version {
+		root = *parent.B.GlobalStateRoot
+	} else {
+		root = post.Commitment(o.Version)
+	}
 	h := &core.Header{
 		ParentHash:       &parentHash,
 		Number:           num,
